@@ -190,6 +190,8 @@ class Model:
         else:
             if self.kind[tail] != 'W' or head == tail:
                 return False
+            if self.kind[head] == 'F' and tail in self.upstream(head, links):
+                return False  # the placeholder head stands for the tail's own output (forml: Future == its publisher)
             succ = dict(succ)
             succ[tail] = set()
             reach = self._reach(head, succ)
@@ -209,6 +211,19 @@ class Model:
             return False
 
         return visit(head)
+
+    def upstream(self, node, links=None):
+        """Nodes publishing into the given placeholder, directly or through other placeholders."""
+        links = self.links if links is None else links
+        found, stack = set(), [node]
+        while stack:
+            current = stack.pop()
+            for s, _, d, _ in links:
+                if d == current and s not in found:
+                    found.add(s)
+                    if self.kind[s] == 'F':
+                        stack.append(s)
+        return found
 
     @staticmethod
     def _reach(start, succ):
